@@ -15,7 +15,8 @@ SIGTERM, SIGKILL, SIGINT, SIGQUIT, SIGHUP, SIGUSR1, SIGSEGV = (
 def run_scenario(sc, record_state=True):
     from harness.simdaemon import Sim
     sim = Sim(sc["watchers"], check_delay=sc.get("check_delay", 1.0),
-              warmup_delay=sc.get("warmup_delay", 0.0), record_state=record_state)
+              warmup_delay=sc.get("warmup_delay", 0.0), record_state=record_state,
+              file_mode=bool(sc.get("file_mode", False)))
     try:
         obeys = list(sc.get("obeys", []))
         stubborn = set(sc.get("stubborn", []))
@@ -101,6 +102,12 @@ def _exec(sim, op):
                 props["childpid"] = kids[i % len(kids)]
         sim.request(op["cmd"], props, mid=op.get("mid"), cast=op.get("cast", False),
                     raw=op["raw"].encode("latin1") if "raw" in op else None)
+        if op.get("drain", True):
+            sim.drain()
+    elif o == "reloadcfg":
+        # the configuration file is rewritten, then the real `reloadconfig` request
+        sim.write_file(op["watchers"])
+        sim.request("reloadconfig", {"waiting": bool(op.get("waiting", False))})
         if op.get("drain", True):
             sim.drain()
     elif o == "die":
